@@ -93,6 +93,7 @@ type SegOpt struct {
 	StructFrames int   // frames at each end contributing structural cuts (0: all)
 	DoubleFrames int   // same, for the set the structural double cuts are drawn from (default 2)
 	Chunks       []int // extra fixed-size chunk feeds
+	Singles      []int // explicit single cuts (used when AllSingleMax < 0)
 }
 
 // EachSeg enumerates the segmentations of w selected by o; fn returns false to stop.
@@ -106,7 +107,7 @@ func EachSeg(w *Wire, o SegOpt, fn func(Seg) bool) {
 	}
 	var singles []int
 	if o.AllSingleMax < 0 {
-		// no single cuts
+		singles = o.Singles
 	} else if n <= o.AllSingleMax {
 		singles = make([]int, 0, n-1)
 		for c := 1; c < n; c++ {
